@@ -59,6 +59,21 @@ def nonopen_knots(rng, p, breaks, mults):
     return k
 
 
+def general_knots(rng, p, breaks, mults):
+    """any non-decreasing knot vector the constructor accepts: every break (the outer ones too) with a multiplicity
+    1..p, at least 2p knots, start = k[p-1] < k[len-p] = end.  Unlike nonopen_knots, the domain ends may sit inside
+    a group of equal knots (e.g. order 2, [0, 1, 2, 2, 3]: end = 2 with a copy to its left and a knot after it)."""
+    for _ in range(50):
+        k = []
+        for b in breaks:
+            k += [b] * rng.randint(1, p)
+        while len(k) < 2 * p:
+            k.append(k[-1] + rng.choice(SPACINGS))
+        if k[p - 1] < k[len(k) - p]:
+            return k
+    return open_knots(p, breaks, mults)
+
+
 def periodic_knots(p, breaks, mults, cont):
     """periodic knot vector of continuity cont (-1 < cont <= p-2): seam multiplicity p-1-cont,
     ghost knots are the exact periodic images (also for bases with few functions)."""
@@ -98,6 +113,8 @@ def gen_basis(rng, kind=None, pmax=7, nint_max=6, big=False):
         return dict(order=p, knots=open_knots(p, breaks, mults), periodic=-1, kind=kind)
     if kind == 'nonopen':
         return dict(order=p, knots=nonopen_knots(rng, p, breaks, mults), periodic=-1, kind=kind)
+    if kind == 'general':
+        return dict(order=p, knots=general_knots(rng, p, breaks, mults), periodic=-1, kind=kind)
     cont = rng.randint(0, p - 2)
     mults = [min(m, p - 1) for m in mults]
     return dict(order=p, knots=periodic_knots(p, breaks, mults, cont), periodic=cont, kind=kind)
